@@ -100,7 +100,21 @@ pub(super) fn dispatch(repo: &gix::Repository, matches: &ArgMatches) -> Result<(
         Stack::from_branch_name(repo, new_branchname, InitializationPolicy::RequireInitialized)?;
     } else {
         stupid.branch_copy(None, new_branchname.as_ref())?;
-        Stack::from_branch_name(repo, new_branchname, InitializationPolicy::MustInitialize)?;
+        if let Err(e) =
+            Stack::from_branch_name(repo, new_branchname, InitializationPolicy::MustInitialize)
+        {
+            // The new stack could not be initialized (e.g. a stack state reference
+            // of that name is left over): take the copied branch and its
+            // configuration back.
+            if let Ok(new_branch) = repo.get_branch(new_branchname) {
+                new_branch.delete().ok();
+            }
+            if let Ok(mut local_config_file) = repo.local_config_file() {
+                local_config_file.remove_section("branch", Some(new_branchname.as_ref().into()));
+                repo.write_local_config(local_config_file).ok();
+            }
+            return Err(e);
+        }
     };
 
     super::set_stgit_parent(repo, new_branchname, Some(&current_branchname))?;
